@@ -82,6 +82,8 @@ class X:
             return f"(pbindm {self.oq(s.value)} (fun price =>\n {self.stmts(rest)}))"
         if ast.unparse(s) == "pending.append((volume, buy_order, sell_order))":
             return f"(let n := S n in\n {self.stmts(rest)})"
+        if isinstance(s, ast.Pass):
+            return self.stmts(rest)
         if isinstance(s, ast.Raise) and ast.unparse(s) == "raise AssertionError":
             return "(PErr PyAssertionError)"
         if isinstance(s, ast.If):
@@ -104,17 +106,17 @@ def translate(repo):
     stop = [s for s in body if isinstance(s, ast.If) and not s.orelse and len(s.body) == 1 and isinstance(s.body[0], ast.Break)
             and ".price" in ast.unparse(s.test)]
     vol = [s for s in body if isinstance(s, ast.Assign) and ast.unparse(s.targets[0]) == "volume"]
-    dec = [s for s in body if isinstance(s, ast.If) and any(isinstance(x, ast.Assign) and ast.unparse(x.targets[0]) == "price" for x in ast.walk(s))]
-    if len(stop) != 1 or len(vol) != 1 or len(dec) != 1:
-        raise Unsupported(f"kernels found: stop test {len(stop)}, volume {len(vol)}, price decision {len(dec)}")
-    # order in the loop: stop test, then the volume, then the decision; every `price =` and every append lives inside the decision
-    idx = [body.index(stop[0]), body.index(vol[0]), body.index(dec[0])]
+    def writes(s):
+        return any((isinstance(x, ast.Assign) and ast.unparse(x.targets[0]) == "price") or
+                   (isinstance(x, ast.Call) and ast.unparse(x.func) == "pending.append") for x in ast.walk(s))
+    w = [k for k, s in enumerate(body) if writes(s)]
+    if len(stop) != 1 or len(vol) != 1 or not w:
+        raise Unsupported(f"kernels found: stop test {len(stop)}, volume {len(vol)}, statements writing price / pending {len(w)}")
+    # the decision region: the contiguous statements from the first to the last one that writes `price` or `pending`
+    dec = body[w[0]:w[-1] + 1]
+    idx = [body.index(stop[0]), body.index(vol[0]), w[0]]
     if idx != sorted(idx):
         raise Unsupported("the three kernels are not in the order stop test / volume / price decision")
-    for s in body:
-        if s is not dec[0] and any((isinstance(x, ast.Assign) and ast.unparse(x.targets[0]) == "price") or
-                                   (isinstance(x, ast.Call) and ast.unparse(x.func) == "pending.append") for x in ast.walk(s)):
-            raise Unsupported("`price` or `pending` is written outside the decision statement")
     x = X()
     if ast.unparse(vol[0].value) != "min(buy_order_volume_tmp, sell_order_volume_tmp)":
         raise Unsupported("volume: " + ast.unparse(vol[0].value))
@@ -124,7 +126,7 @@ def translate(repo):
             f"Definition stop_gen (bp sp : option Q) : pres bool :=\n  {x.cond(stop[0].test)}.\n\n"
             "Definition volume_gen (buy_order_volume_tmp sell_order_volume_tmp : Z) : Z := Z.min buy_order_volume_tmp sell_order_volume_tmp.\n\n"
             "Definition price_gen (price bp sp : option Q) (bpl spl : Z) (bid sid : option Z) : pres (option Q * nat) :=\n"
-            f"  let n := 0%nat in\n  {x.stmts([dec[0]])}.\n")
+            f"  let n := 0%nat in\n  {x.stmts(list(dec))}.\n")
 
 
 if __name__ == "__main__":
